@@ -1,8 +1,8 @@
-(** C01_micro. The bound on the total under every interleaving of the micro steps of puts, deletes and reads
+(** C01_micro. The bound on the total under every interleaving of the micro steps
     This file only pins statements: every theorem restates a lemma of proofs/ verbatim and is closed by it. *)
 From CacheD Require Import Base Sketch Model Window Micro.
 From CacheD.proofs Require Import Defs ApiProofs HistoryProofs StatsProofs.
-From CacheD.proofs Require Import MicroProofs MicroBound.
+From CacheD.proofs Require Import MicroProofs MicroBound MicroLedger.
 
 (** (C01 for every interleaving of the micro steps of puts, deletes and reads with each other and with whole
    worker commands, sweeps and batches): the total stays within [0, max] at every state, unless an UpdateWeight that
@@ -13,6 +13,19 @@ Theorem C01_micro_used_bounded_run :
   worker (mbase (mrun cfg evs)) <> Dead -> 0 <= used (mbase (mrun cfg evs)) <= c_max cfg.
 Proof. exact micro_used_bounded_run. Qed.
 Print Assumptions C01_micro_used_bounded_run.
+
+(** (C05, C01 at every micro state of every micro schedule, no condition on the events): as long as the worker has
+   not panicked, the total weight is exactly the sum of the charges, the charged ids are pairwise distinct, every charge
+   is positive and the total lies between 0 and i64::MAX - inside the windows of put_or_update, of the worker's put and
+   Delete and of shutdown() as well *)
+Theorem C01_micro_ledger_exact_all :
+  forall cfg evs, c_debug cfg = true ->
+  let s := mbase (mrun cfg evs) in
+  worker s <> Dead ->
+  used s = weights_sum (weights s) /\ NoDup (map fst (weights s)) /\
+  (forall id wk, alookup id (weights s) = Some wk -> 0 < w_weight wk) /\ 0 <= used s <= i64_max.
+Proof. exact micro_ledger_exact_all. Qed.
+Print Assumptions C01_micro_ledger_exact_all.
 
 (** (C05 for every such interleaving): the total is exactly the sum of the charges of the keys the store holds,
    every stored key is charged under its id and nothing else is *)
